@@ -35,6 +35,9 @@ var c05Letters = func() []rec.Call {
 			// uses the pen
 			negZero := float32(math.Copysign(0, -1))
 			ls = append(ls, rec.Call{M: rec.MRelL}, rec.Call{M: rec.MRelH, A: [6]float32{negZero}}, rec.Call{M: rec.MRelV})
+			// arcs, judged by C06; here: what follows an arc starts from the pen the arc left and
+			// from no smooth state
+			ls = append(ls, rec.Call{M: rec.MAbsA, LA: true, A: [6]float32{4, 6, 0.1, 7.5, 2.25}}, rec.Call{M: rec.MRelA, SW: true, A: [6]float32{3, 3, 0, -4, 6}})
 			c05QuickLetters = len(ls)
 		}
 	}
@@ -150,18 +153,27 @@ func (st *c05State) check(cs *c05Case) {
 	m := ref.NewMap(vb, rect)
 	var z render.Renderer
 	st.ras.ResetLog()
-	// (the target is configured twice: first another rectangle, and the final one only after Reset)
-	z.SetRasterizer(&st.ras, image.Rect(2, 1, 2+rect.Dy()+3, 1+rect.Dx()+9))
-	// the Renderer was used before for a graphic whose viewBox has the same extent but another origin
-	z.Reset(ivg.ViewBox{MinX: vb.MinX + 5, MinY: vb.MinY - 3, MaxX: vb.MaxX + 5, MaxY: vb.MaxY - 3}, ivg.DefaultPalette)
-	z.Reset(vb, ivg.DefaultPalette)
-	// ... and the judged path is the second path of its graphic: the first one ended on curves
-	// (nothing of it - pen, control points, sub-path start - carries over into the next path)
-	z.StartPath(0, vb.MinX+1, vb.MinY+1)
-	z.AbsQuadTo(2, 3, 4, 5)
-	z.RelCubeTo(1, 2, 3, 4, 5, 6)
-	z.ClosePathEndPath()
-	z.SetRasterizer(&st.ras, rect)
+	// Two ways to get there, alternating from case to case (a prelude can mask a defect that
+	// needs its absence, and the other way round):
+	variant := (cs.VB + cs.Rect + len(cs.Letters) + cs.Reps) % 2
+	if variant == 0 {
+		// the plain order; the Renderer was used before for a graphic whose viewBox has the
+		// same extent but another origin
+		z.SetRasterizer(&st.ras, rect)
+		z.Reset(ivg.ViewBox{MinX: vb.MinX + 5, MinY: vb.MinY - 3, MaxX: vb.MaxX + 5, MaxY: vb.MaxY - 3}, ivg.DefaultPalette)
+		z.Reset(vb, ivg.DefaultPalette)
+	} else {
+		// the target is configured twice (another rectangle first, the final one only after Reset
+		// and after a first path that ends on curves): the judged path is the second path of its
+		// graphic, and nothing of the first - pen, control points, sub-path start, scale - carries over
+		z.SetRasterizer(&st.ras, image.Rect(2, 1, 2+rect.Dy()+3, 1+rect.Dx()+9))
+		z.Reset(vb, ivg.DefaultPalette)
+		z.StartPath(0, vb.MinX+1, vb.MinY+1)
+		z.AbsQuadTo(2, 3, 4, 5)
+		z.RelCubeTo(1, 2, 3, 4, 5, 6)
+		z.ClosePathEndPath()
+		z.SetRasterizer(&st.ras, rect)
+	}
 	st.ras.ResetLog()
 	reps := cs.Reps
 	if reps == 0 {
@@ -175,8 +187,10 @@ func (st *c05State) check(cs *c05Case) {
 		}
 	}
 	ops = append(ops, rec.Call{M: rec.MEndPath})
+	marks := make([]int, len(ops)) // rasteriser calls logged after each operation
 	for i := range ops {
 		ops[i].Apply(&z)
+		marks[i] = len(st.ras.Calls)
 	}
 	w.Transition(int64(len(ops)))
 	desc := func() string {
@@ -247,6 +261,20 @@ func (st *c05State) check(cs *c05Case) {
 				fail(key+":draw-args", fmt.Sprintf("Draw(%v, %s, %v), expected Draw(%v, flat paint, ...)", dr.R, dr.Paint, dr.SP, rect))
 				return
 			}
+		case rec.MAbsA, rec.MRelA:
+			// not judged here (C06): at most four segments (none when the pen already is at the end
+			// point), then the state is that of a fresh pen
+			if marks[oi] < ci || marks[oi]-ci > 4 {
+				fail(key+":segments", fmt.Sprintf("op %d: an arc is at most four segments, the rasteriser saw %d; log: %s", oi, marks[oi]-ci, rec.RCallsString(calls)))
+				return
+			}
+			for ; ci < marks[oi]; ci++ {
+				if calls[ci].K != rec.RCubeTo && calls[ci].K != rec.RLineTo {
+					fail(key+":segments", "an arc produced something else than curve segments; log: "+rec.RCallsString(calls))
+					return
+				}
+			}
+			smooth = smNone
 		case rec.MAbsMove, rec.MRelMove:
 			cp := next(rec.RClosePath)
 			if cp == nil {
